@@ -256,10 +256,10 @@ func init() {
 			{Name: "hlc-scripts", Timeout: 60 * time.Second, Count: func(t string) int { return tierN(t, 450, 9000) }, Run: func(c *sup.Ctx) {
 				hlcScenario(c, rng.New(c.Seed, rng.HashString("C04hlc"), uint64(c.Local)))
 			}},
-			{Name: "bucket-clock", Serial: true, Timeout: 60 * time.Second, Count: func(t string) int { return tierN(t, 180, 3600) }, Run: func(c *sup.Ctx) {
+			{Name: "bucket-clock", Serial: true, Timeout: 60 * time.Second, Count: func(t string) int { return tierN(t, 180, 7200) }, Run: func(c *sup.Ctx) {
 				bucketClockScenario(c, rng.New(c.Seed, rng.HashString("C04bucket"), uint64(c.Local)))
 			}},
-			crashPart("reopen-clock", 40, 400, reopenClockScenario),
+			crashPart("reopen-clock", 40, 1200, reopenClockScenario),
 			{Name: "hlc-scripts-race", Race: true, Timeout: 120 * time.Second, Count: func(t string) int { return tierN(t, 18, 90) }, Run: func(c *sup.Ctx) {
 				hlcScenario(c, rng.New(c.Seed, rng.HashString("C04hlcrace"), uint64(c.Local)))
 			}},
